@@ -154,8 +154,11 @@ def exportPickleSpec (env : Env) (cwd : Path) (m : List (String × String)) (obj
         | (.ok f, fs'') => exportSpec env cwd obj f m e true (some [("protocol", protocol)]) fs''
         | (.error x, fs'') => (.error x, fs'')
 
-/-- `export_landmark_file(landmarks_object, fp, extension, overwrite)` -/
-def exportLandmarkFileSpec (env : Env) (cwd : Path) (m : List (String × String)) (obj : ExObj) (fp : Fp) (ext : OStr)
+/-- `export_landmark_file(landmarks_object, fp, extension, overwrite)` AS CODED UNTIL THE REPAIR
+notes/fixes/C16-landmark-dict-guard-first.diff: the extension is normalised and the dictionary check is made BEFORE the
+overwrite guard (which only runs inside `_export`), so a dictionary exported to an existing `x.pts` is refused with a
+plain ValueError, not with the OverwriteError the property names -/
+def exportLandmarkFileSpecCoded (env : Env) (cwd : Path) (m : List (String × String)) (obj : ExObj) (fp : Fp) (ext : OStr)
     (ow : Bool) : IOx Unit := fun fs =>
   match normalizeExt ext with
   | .error x => (.error x, fs)
@@ -164,6 +167,22 @@ def exportLandmarkFileSpec (env : Env) (cwd : Path) (m : List (String × String)
         ((e.isSome ∧ e ≠ ostr ".ljson") ∨ (fp.isStrOrPath ∧ fp.toPath.suffix ≠ ostr ".ljson")) then
       (.error .valueError, fs)
     else exportSpec env cwd obj fp m e ow none fs
+
+/-- `export_landmark_file` with the guard first (the repaired code): for a str / Path, `_validate_filepath` runs before
+anything else -/
+def exportLandmarkFileSpec (env : Env) (cwd : Path) (m : List (String × String)) (obj : ExObj) (fp : Fp) (ext : OStr)
+    (ow : Bool) : IOx Unit := fun fs =>
+  if fp.isStrOrPath then
+    match validateFilepathSpec env cwd fp.toPath ow fs with
+    | (.error x, fs') => (.error x, fs')
+    | (.ok _, fs') => exportLandmarkFileSpecCoded env cwd m obj fp ext ow fs'
+  else exportLandmarkFileSpecCoded env cwd m obj fp ext ow fs
+
+/-- the two variants under one name (`guardFirst = true`: the repaired code) -/
+def exportLandmarkFileSpecV (guardFirst : Bool) (env : Env) (cwd : Path) (m : List (String × String)) (obj : ExObj)
+    (fp : Fp) (ext : OStr) (ow : Bool) : IOx Unit :=
+  if guardFirst then exportLandmarkFileSpec env cwd m obj fp ext ow
+  else exportLandmarkFileSpecCoded env cwd m obj fp ext ow
 
 /-- `export_image(image, fp, extension, overwrite)` -/
 def exportImageSpec (env : Env) (cwd : Path) (m : List (String × String)) (obj : ExObj) (fp : Fp) (ext : OStr)
